@@ -406,7 +406,7 @@ class Tracer:
         }
         self._last_fc = np.asarray(m._init_cond.th_fc_Adj, dtype=float).tobytes()
         sc = self.scenario or {}
-        cr = m.crop
+        cr = ps.CropList[0] if getattr(ps, "CropList", None) else m.crop      # the crop the model works with (default harvest date filled in)
         def _md(sv):
             a, b = str(sv).split("/")
             return [int(a), int(b)]
